@@ -580,6 +580,58 @@ def polynomial_laws(prog):
                     errs.append("length of a sum is %s, expected max(len1, len2)" % show(inner)[:60])
         out.append(inst("LAW", "%s:%s-length" % (PA, nm), VIOLATION if errs else OK, fn, None,
                         "; ".join(errs) if errs else "len = min(%s, MAX_COEFFS)" % ("len1+len2−1" if nm == "mul" else "max(len1,len2)")))
+    # annihilation: 0·p = p·0 = 0 as *values of the type* (equality is derived: coefficients and len).  The length
+    # formula len1 + len2 − 1 gives len2 − 1 for len1 = 0, so a product is only the zero polynomial when each operand's
+    # emptiness is answered before the formula is reached.
+    te = mul.terms
+    r = strip(te.ret)
+    alts = [(pb, strip(v)) for pb, v in r[2]] if r[0] == "phi" else [(None, r)]
+    errs = []
+
+    def is_zero_poly(v):
+        if mir.is_call(v, "zero") or (v[0] == "constitem" and "zero" in v[1].lower()):
+            return True
+        if v[0] == "agg" and v[2] == PA and "len" in v[5]:
+            l = strip(v[4][v[5].index("len")])
+            return l[0] == "const" and l[2] == "0"
+        return False
+    n_formula = 0
+    for pb, v in alts:
+        if is_zero_poly(v):
+            continue
+        if not (v[0] == "agg" and v[2] == PA and "len" in v[5]) or pb is None:
+            errs.append("?a result of mul is neither zero() nor a Polynomial built in place: %s" % show(v)[:60])
+            continue
+        n_formula += 1
+        l = v[4][v[5].index("len")]
+        facts = te.facts_at(pb)
+        for side in ("arg1.len", "arg2.len"):
+            known = False
+            for c, val, _, _ in facts:
+                c = strip(c)
+                if c[0] == "bin" and c[1] in ("Eq", "Ne", "Gt", "Lt", "Ge", "Le"):
+                    a_, b_ = show(strip(c[2])), show(strip(c[3]))
+                    true_ = (val == "1") or (isinstance(val, tuple) and val[0] == "not" and "0" in val[1])
+                    false_ = (val == "0") or (isinstance(val, tuple) and val[0] == "not" and "1" in val[1])
+                    if (a_, b_) == (side, "0") and ((c[1] == "Eq" and false_) or (c[1] in ("Ne", "Gt") and true_) or (c[1] == "Le" and false_)):
+                        known = True
+                    if (a_, b_) == ("0", side) and ((c[1] == "Eq" and false_) or (c[1] in ("Ne", "Lt") and true_) or (c[1] == "Ge" and false_)):
+                        known = True
+                    if (a_, b_) == (side, "1") and ((c[1] == "Ge" and true_) or (c[1] == "Lt" and false_)):
+                        known = True
+            if known:
+                continue
+            guarded = any(strip(x)[0] == "gamma" and side in show(strip(x)[1]) for x in mir.subterms(l))
+            if guarded:
+                errs.append("?the length of the product chooses on %s inside the formula" % side)
+            else:
+                errs.append("the product %s is returned also when %s is 0 (the zero polynomial): its length is then the other "
+                            "operand's length − 1, not 0, so 0·p is not the zero of the type (equality and the reported "
+                            "length include len) — annihilation fails" % (show(v)[:50], side.replace("arg1", "self").replace("arg2", "rhs")))
+    if not n_formula and not errs:
+        errs.append("?no product built in place found in mul")
+    out.append(inst("LAW", "%s:mul-annihilator" % PA, verdict_of(errs), mul, None,
+                    errtext(errs) if errs else "the length formula is reached only with both operands non-empty; otherwise zero()"))
     one = prog.find1(name="one", self_adt=PA, impl_trait=TRAIT + "Semiring", unit="rsdd-lib")
     te = one.terms
     errs = []
